@@ -428,6 +428,21 @@ def variable_get(ctx):
             if got != exp: c.status = 'reproduced'; break
 
 
+def _fname_task(args):
+    from .scen_expr import expr_scenario
+    ctx, nm, sep = args
+    text = b'(' + nm.encode() + sep + b'1)'
+    sc = expr_scenario(ctx, [z3.BitVecVal(b, 8) for b in text], [])
+    ex = sc.ex; st, info = sc.initial(arbitrary=False)
+    F = ex.find(r'^read_getter$')
+    ex.new_frame(st, F, [info['rref']])
+    outs = [d for d in ex.run(st) if d.status != 'infeasible']
+    ff = [e for d in outs for e in d.events if e[0] == 'find_function']
+    got = set(bytes(cval(b) for b in e[1]).decode('latin-1') for e in ff)
+    exp = nm[1:] if nm.startswith('.') and len(nm) > 1 else nm
+    return {'ok': got == {exp}, 'got': sorted(got), 'paths': len(outs), 'queries': ex.queries, 'solver_s': ex.solver_s, 'bodies': list(ex.used_bodies)}
+
+
 # ---------------------------------------------------------------- every function name and alias is read back whole
 def function_names(ctx):
     """read_function_name on `(NAME 1)` for every name and alias declared in src/functions: the name read is NAME itself,
@@ -444,23 +459,15 @@ def function_names(ctx):
     fam = run.family('expr.function_names', f'every declared function name and alias ({len(names)}) is read back whole by the function-name reader, so every alias reaches find_function as written')
     fam.need_witness = False
     run.bounds['function names'] = f'the {len(names)} names and aliases declared under src/functions, each as `(NAME 1)` and `(NAME,1)`'
+    from .par import pmap
+    tasks = [(ctx, nm, sep) for nm in names for sep in (b' ', b',')]
+    results = pmap(_fname_task, tasks)
     bad = []
-    for nm in names:
-        for sep in (b' ', b','):
-            text = b'(' + nm.encode() + sep + b'1)'
-            sc = expr_scenario(ctx, [z3.BitVecVal(b, 8) for b in text], [])
-            ex = sc.ex; st, info = sc.initial(arbitrary=False)
-            F = ex.find(r'^read_getter$')
-            ex.new_frame(st, F, [info['rref']])
-            outs = [d for d in ex.run(st) if d.status != 'infeasible']
-            fam.obligations += 1; run.paths += len(outs)
-            ff = [e for d in outs for e in d.events if e[0] == 'find_function']
-            got = set(bytes(cval(b) for b in e[1]).decode('latin-1') for e in ff)
-            exp = nm[1:] if nm.startswith('.') and len(nm) > 1 else nm
-            if got == {exp} or (nm.startswith('.') and got == {nm[1:]}): fam.discharged += 1
-            else: bad.append((nm, sorted(got)))
-            run.queries += ex.queries; run.solver_s += ex.solver_s
-            for b in ex.used_bodies: run.functions[b] = True
+    for (c_, nm, sep), r in zip(tasks, results):
+        fam.obligations += 1; run.paths += r['paths']; run.queries += r['queries']; run.solver_s += r['solver_s']
+        for b in r['bodies']: run.functions[b] = True
+        if r['ok']: fam.discharged += 1
+        else: bad.append((nm, r['got']))
     if bad:
         nm, got = bad[0]
         c = Candidate(fam.name, 'name-cut', f'the function name `{nm}` is read as {got} (and {len(bad) - 1} more)', {'name': nm, 'all': bad[:10]})
